@@ -15,7 +15,7 @@ import json, os, subprocess, sys, hashlib, re
 
 REPO = os.environ.get("VERIF_REPO", "/repo")
 HERE = os.path.dirname(os.path.abspath(__file__))
-GEN_DIR = os.path.join(HERE, "..", "lean", "DspVerif", "Gen")
+GEN_DIR = os.path.join(os.environ.get("VERIF_LEAN") or os.path.join(HERE, "..", "lean"), "DspVerif", "Gen")
 
 
 class Unsupported(Exception):
